@@ -5,6 +5,7 @@ import (
 	"go/constant"
 	"go/token"
 	"go/types"
+	"regexp"
 	"sort"
 	"strings"
 
@@ -26,10 +27,19 @@ type sctx struct {
 	depth     int
 	fn        *ssa.Function // function whose locals may be named (loop invariants, asserts)
 	defining  *opaqueInfo   // set while the body of an opaque spec function is being translated
+	loopSeen  string        // "seen" names the set of keys already visited by the enclosing map-range loop
 }
 
 func (vc *VC) ctx(cur, old *State) *sctx {
 	c := &sctx{vc: vc, cur: cur, old: old, vars: map[string]binding{}, names: vc.params, fn: vc.fn}
+	if vc.fn == nil {
+		// a lemma: no code, only the contract's package
+		c.tenv = map[string]types.Type{}
+		if sp := vc.env.byName[vc.decl.Pkg]; sp != nil {
+			c.pkg = sp.Pkg
+		}
+		return c
+	}
 	if vc.fn.Pkg != nil {
 		c.pkg = vc.fn.Pkg.Pkg
 	} else if vc.fn.Origin() != nil && vc.fn.Origin().Pkg != nil {
@@ -179,6 +189,15 @@ func (c *sctx) expr(e Expr) (Term, *SType) {
 				var ts []string
 				for _, te := range tr {
 					t, _ := n.expr(te)
+					// "k in m" on a Go map is (and (not (= m 0)) (select dom k)): only the select is a valid pattern
+					for strings.HasPrefix(t, "(and ") || strings.HasPrefix(t, "(ite ") {
+						kids := splitTop(t)
+						if strings.HasPrefix(t, "(ite ") {
+							t = kids[2] // m[k] on a Go map is (ite in (select ...) zero): the select is the pattern
+						} else {
+							t = kids[len(kids)-1]
+						}
+					}
 					ts = append(ts, t)
 				}
 				pats = append(pats, ":pattern ("+strings.Join(ts, " ")+")")
@@ -283,13 +302,10 @@ func (c *sctx) ident(x *EIdent) (Term, *SType) {
 	if b, ok := c.vars[x.Name]; ok {
 		return b.t, b.typ
 	}
-	for i, r := range c.resNames {
-		if r.Name == x.Name {
-			if c.results == nil {
-				panic(specErr(x, "result %s used outside a postcondition", x.Name))
-			}
-			return c.results[i], goT(c.resTypes[i])
-		}
+	if x.Name == "seen" && c.loopSeen != "" {
+		ks := strings.TrimSuffix(strings.TrimPrefix(vc.compSort[c.loopSeen], "(Array "), " Bool)")
+		_ = ks
+		return vc.comp(c.cur, c.loopSeen, vc.compSort[c.loopSeen]), &SType{Kind: "set", Elem: goT(tString)}
 	}
 	if c.loopScope.IsValid() && c.fn != nil {
 		if a := c.localByName(x.Name, c.loopScope); a != nil {
@@ -300,6 +316,14 @@ func (c *sctx) ident(x *EIdent) (Term, *SType) {
 			} else if r, ok := vc.vals[a]; ok {
 				return c.derefPtr(r, deref(a.Type())), goT(deref(a.Type()))
 			}
+		}
+	}
+	for i, r := range c.resNames {
+		if r.Name == x.Name {
+			if c.results == nil {
+				panic(specErr(x, "result %s used outside a postcondition", x.Name))
+			}
+			return c.results[i], goT(c.resTypes[i])
 		}
 	}
 	if b, ok := c.names[x.Name]; ok {
@@ -421,9 +445,17 @@ func (c *sctx) derefPtr(p Term, elem types.Type) Term {
 
 // addrOf: &p.f for a field that lives at a derived reference (embedded struct, address-taken field).
 func (c *sctx) addrOf(x *EUnary) (Term, *SType) {
+	if id, ok := x.X.(*EIdent); ok && c.loopScope.IsValid() && c.fn != nil {
+		// the address of a heap-allocated local variable
+		if a := c.localByName(id.Name, c.loopScope); a != nil && a.Heap {
+			if r, ok := c.vc.vals[a]; ok {
+				return r, goT(a.Type())
+			}
+		}
+	}
 	s, ok := x.X.(*ESel)
 	if !ok {
-		panic(specErr(x, "& needs a field selection"))
+		panic(specErr(x, "& needs a field selection or a heap-allocated local"))
 	}
 	p, pt := c.expr(s.X)
 	ptr, ok := pt.Go.Underlying().(*types.Pointer)
@@ -787,6 +819,41 @@ func (c *sctx) call(x *ECall) (Term, *SType) {
 		}
 		vc.assumeGlobal(fmt.Sprintf("(forall ((%s Int)) (! (=> (and (<= 0 %s) (< %s %s)) (= (%s %s %s) %s)) %s))", bv, bv, bv, n, seqFn(ss, "at"), name, bv, body, pats))
 		return name, st
+	case "ready": // ready(ch): the channel can deliver a value now
+		t, _ := arg(0)
+		vc.chanFns()
+		return and(not(eq(t, "0")), app("ys.x.ready", vc.comp(c.cur, worldComp, vc.worldSort()), t)), goT(tBool)
+	case "readyIn": // readyIn(w, ch)
+		w, _ := arg(0)
+		t, _ := arg(1)
+		vc.chanFns()
+		return and(not(eq(t, "0")), app("ys.x.ready", w, t)), goT(tBool)
+	case "recv": // recv(ch): the value it delivers
+		t, ty := arg(0)
+		ch, ok := ty.Go.Underlying().(*types.Chan)
+		if !ok {
+			panic(specErr(x, "recv() needs a channel"))
+		}
+		return app(vc.recvFn(ch.Elem()), vc.comp(c.cur, worldComp, vc.worldSort()), t), goT(ch.Elem())
+	case "recvIn": // recvIn(w, ch)
+		w, _ := arg(0)
+		t, ty := arg(1)
+		ch, ok := ty.Go.Underlying().(*types.Chan)
+		if !ok {
+			panic(specErr(x, "recvIn() needs a channel"))
+		}
+		return app(vc.recvFn(ch.Elem()), w, t), goT(ch.Elem())
+	case "recvW": // recvW(w, ch): the world after the receive
+		w, wt := arg(0)
+		t, _ := arg(1)
+		vc.chanFns()
+		return app("ys.x.recvW", w, t), wt
+	case "chancap":
+		t, _ := arg(0)
+		return app("select", vc.comp(c.cur, "H.chancap", "(Array Int Int)"), t), goT(tInt)
+	case "chancnt":
+		t, _ := arg(0)
+		return app("select", vc.comp(c.cur, "H.chancnt", "(Array Int Int)"), t), goT(tInt)
 	case "arrayOf":
 		t, _ := arg(0)
 		return app("ys.arr", t), goT(tInt)
@@ -1081,8 +1148,23 @@ func (c *sctx) expand(d *Decl, recv *binding, args []Expr, at Expr) (Term, *STyp
 			return c.nilOf(rt), rt
 		}
 	}
+	// a large closed expansion gets a name (once): smaller queries, shared terms
+	if len(t) > 400 && !c.cur.symbolic && closedTerm(t) {
+		if name, ok := c.vc.uninterp["def:"+t]; ok {
+			return name, ty
+		}
+		name := c.vc.fresh("d."+d.Name, c.sortOf(ty))
+		c.vc.facts = append(c.vc.facts, fact{fmt.Sprintf("(assert (= %s %s))", name, t), -1})
+		c.vc.uninterp["def:"+t] = name
+		return name, ty
+	}
 	return t, ty
 }
+
+var boundVarRe = regexp.MustCompile(`(^|[ (])\|?(q|a|h|let)\.`)
+
+// closedTerm: no quantifier-, let- or axiom-bound variable occurs in the term.
+func closedTerm(t Term) bool { return !boundVarRe.MatchString(t) }
 
 func (vc *VC) resolveTypeLenient(te *TypeExpr, pkg *types.Package, tenv map[string]types.Type) (t *SType) {
 	defer func() {
